@@ -1,6 +1,8 @@
 (* C12 -- every compiled grammar is well-formed GBNF.  ONLY theorem statements closed by `exact`
    (+ Definitions of the full / open statements). *)
 From OV Require Import Base.Strs Gen.GbnfGen Gbnf.Syntax Gbnf.Compiler Gbnf.Safe Gbnf.Facts.
+Require Coq.Strings.String.
+Import Coq.Strings.String.StringSyntax.
 
 (* ---- for ALL strings: the literal escape is closed under the recogniser's literal scanner ---------- *)
 Theorem C12_escape_literal_is_closed_form : forall s, escape_literal s = flat_map gesc s.
@@ -103,6 +105,39 @@ Theorem C12_unescaped_name_was_ill_formed :
   wf_text_code (compile_schema (sch_named w_aqbc [fld w_NAME [CReq]]) true) = 0%N.
 Proof. exact unescaped_name_was_ill_formed. Qed.
 
+(* ---- repo commit b75eb16: the header comment shows the schema name on one line (join of str.splitlines) --------- *)
+Theorem C12_one_line_examples :
+  one_line w_lb = [97;32;98] /\ one_line [97;13;10;98] = [97;32;98] /\ one_line [97;10;13;98] = [97;32;32;98]
+  /\ one_line [97;10] = [97] /\ one_line [10;97] = [32;97] /\ one_line [] = [] /\ one_line [10] = [] /\ one_line [10;10] = [32]
+  /\ one_line [97;13] = [97] /\ one_line [13;10] = [] /\ one_line [97;32;98] = [97;32;98]
+  /\ one_line w_all_breaks = [97;32;98;32;99;32;100;32;101;32;102;32;103;32;104;32;105;32;106;32;107;32;108;32;32;109].
+Proof. exact one_line_examples. Qed.
+
+(* names with line breaks (LF; every str.splitlines boundary at once; only a break; CR LF first; LS last): in the safe
+   class and well-formed, with and without envelope, with and without a field *)
+Theorem C12_regress_line_break_name_wf :
+  forallb (fun n => forallb (fun env => wf_text (compile_schema (sch_named n [fld w_NAME [CReq]]) env)
+                                        && safe_schema (sch_named n [fld w_NAME [CReq]]) env
+                                        && wf_text (compile_schema (sch_named n []) env)) [true; false])
+          [w_lb; w_all_breaks; [10%N]; [13%N;10%N;97%N]; [97%N;8232%N]] = true.
+Proof. exact regress_line_break_name_wf. Qed.
+
+Theorem C12_raw_header_prog_is_pre_fix_template :
+  filter (fun e : str * list gpart => tpl_has_hole [e] h_schema_name) raw_header_prog
+  = [(g_always, [PLit [35;32;71;66;78;70;32;71;114;97;109;109;97;114;32;102;111;114;32;79;67;84;65;86;69;32;115;99;104;101;109;97;58;32];
+                 PHole h_schema_name])]
+  /\ tpl_has_hole raw_header_prog h_schema_name_1line = false.
+Proof. exact raw_header_prog_is_pre_fix_template. Qed.
+
+Theorem C12_raw_header_was_ill_formed :
+  wf_text_code (compile_schema_of raw_header_prog (sch_named w_lb [fld w_NAME [CReq]]) true) = 1%N /\
+  wf_text_code (compile_schema_of raw_header_prog (sch_named w_lb [fld w_NAME [CReq]]) false) = 1%N /\
+  wf_text_code (compile_schema_of raw_header_prog (sch_named w_all_breaks []) true) = 1%N /\
+  wf_text_code (compile_schema (sch_named w_lb [fld w_NAME [CReq]]) true) = 0%N /\
+  wf_text_code (compile_schema (sch_named w_lb [fld w_NAME [CReq]]) false) = 0%N /\
+  wf_text_code (compile_schema (sch_named w_all_breaks []) true) = 0%N.
+Proof. exact raw_header_was_ill_formed. Qed.
+
 (* ---- ties to the current source text ---------------------------------------------------------------------- *)
 Theorem C12_pin_escape_chain : gbnf_escape_chain = [([c_bs], [c_bs; c_bs]); ([c_dq], [c_bs; c_dq])].
 Proof. exact pin_escape_chain. Qed.
@@ -119,6 +154,20 @@ Proof. exact pin_dispatch_classes. Qed.
 (* the templates escape every occurrence of the field name and of the upper-cased schema name *)
 Theorem C12_pin_names_escaped : gbnf_field_name_escaped = true /\ gbnf_schema_name_escaped = true.
 Proof. exact pin_names_escaped. Qed.
+
+Theorem C12_pin_header_one_line : gbnf_header_name_one_line = true.
+Proof. exact pin_header_one_line. Qed.
+
+Theorem C12_pin_header_flag_agrees_with_templates :
+  gbnf_header_name_one_line = negb (tpl_has_hole gbnf_schema_prog h_schema_name).
+Proof. exact pin_header_flag. Qed.
+
+(* which expression feeds SchemaDefinition.name on each route (read by the translator; any other binding fails closed) *)
+Theorem C12_pin_name_sources :
+  map fst gbnf_name_sources = [lit "compile_gbnf_from_meta"; lit "extract_schema_from_document"; lit "emit_grammar_for_schema"]
+  /\ gbnf_docroute_default_name = lit "UNKNOWN" /\ gbnf_contract_default_type = lit "UNKNOWN"
+  /\ gbnf_parser_inferred_name = lit "INFERRED".
+Proof. exact pin_name_sources. Qed.
 
 Theorem C12_pin_escape_flags_agree_with_templates :
   gbnf_field_name_escaped = negb (tpl_has_hole gbnf_schema_prog h_field_name) /\
@@ -198,6 +247,13 @@ Theorem C12_env_start_line_rule : forall s,
   = Some (mkRule n_env_start [[ILit ([61;61;61] ++ py_upper (sc_name s) (sc_upper s) ++ [61;61;61])]]).
 Proof. exact env_start_line_rule. Qed.
 
+(* the header name has no CR / LF, for EVERY schema name; NUL-freeness is preserved *)
+Theorem C12_one_line_no_line_break : forall s, forallb nonl (one_line s) = true.
+Proof. exact one_line_nonl. Qed.
+
+Theorem C12_one_line_no_nul : forall s, forallb nz s = true -> forallb nz (one_line s) = true.
+Proof. exact one_line_nz. Qed.
+
 (* stages: no field / no picked REGEX member need no extra clause *)
 Theorem C12_compile_wf_partial_no_fields : forall s env,
   safe_schema s env = true -> sc_fields s = [] -> wf_text (compile_schema s env) = true.
@@ -222,7 +278,7 @@ Proof. exact run_lines. Qed.
 
 (* STRUCTURED VIEW: the lines of every compiled grammar (the generated template list run with abstract holes) *)
 Theorem C12_schema_lines : forall s env,
-  schema_lines s env = ((L_hdr ++ sc_name s) :: mid_lines s env) ++ [L_root].
+  schema_lines s env = ((L_hdr ++ one_line (sc_name s)) :: mid_lines s env) ++ [L_root].
 Proof. exact schema_lines_eq. Qed.
 
 (* sanitised names are in [A-Za-z0-9_] for EVERY input (no hypothesis on the lowering oracle) *)
